@@ -5,7 +5,7 @@
    particular every widening); float -> integer is never offered. *)
 From Coq Require Import Reals Lra.
 From Flocq Require Import Core.
-From MptV Require Import Base.Mem C07.ConvModel C07.ConvFloat C07.ConvRound C07.ConvFlocq.
+From MptV Require Import Base.Mem C07.ConvModel C07.ConvFloat C07.ConvRound C07.ConvFlocq C07.ConvBits.
 Local Open Scope Z_scope.
 
 (* ---- what [fdecode] can produce: a number of the source format ---- *)
@@ -22,9 +22,6 @@ Proof.
   set (Ea := Z.shiftr bits 23 mod 256) in *. set (Ma := bits mod 8388608) in *.
   set (Eb := Z.shiftr bits 52 mod 2048) in *. set (Mb := bits mod 4503599627370496) in *.
   set (Ec := Z.shiftr bits 64 mod 32768) in *. set (Mc := bits mod 18446744073709551616) in *.
-  assert (X : forall (b1 b2 : bool) (x : fval), (if b1 then (if b2 then FInf (Z.odd 0) else FNaN) else x) = FFin neg m e ->
-            b1 = false /\ x = FFin neg m e).
-  { intros [] [] x H; try discriminate H; split; auto. }
   destruct src; cbv zeta;
     repeat match goal with |- context [Z.odd ?z] => generalize (Z.odd z); intro end;
     intros H.
@@ -178,4 +175,60 @@ Theorem fconv_never_faults src bits t hd : fconv src bits t hd <> FFault.
 Proof.
   unfold fconv. destruct t; try discriminate;
     repeat match goal with |- context [if ?b then _ else _] => destruct b end; discriminate.
+Qed.
+
+(* ------------------------------------------------------------------ the bytes in the destination *)
+Lemma cond_Zopp_mul neg m k : cond_Zopp neg m * k = cond_Zopp neg (m * k).
+Proof. destruct neg; cbn; ring. Qed.
+
+Lemma same_dyadic_R neg m2 e2 m e : same_dyadic m2 e2 m e -> dyR neg m2 e2 = dyR neg m e.
+Proof.
+  unfold same_dyadic, dyR. intros H. set (g := Z.min e e2) in *.
+  rewrite (F2R_change_exp radix2 g _ e2) by (unfold g; lia).
+  rewrite (F2R_change_exp radix2 g _ e) by (unfold g; lia).
+  change (radix_val radix2) with 2. rewrite !cond_Zopp_mul, H. reflexivity.
+Qed.
+
+Lemma finf_roundtrip c neg : is_flt c = true ->
+  exists b, fencode c (FInf neg) = Some b /\ fdecode c b = FInf neg.
+Proof. destruct c; try discriminate; intros _; destruct neg; eexists; split; reflexivity. Qed.
+
+(* An accepted conversion with destination: the bit pattern b written to the destination,
+   decoded as the TARGET type, is a finite number equal to the correctly rounded source
+   (which does not exceed the largest finite target value), or the source's infinity;
+   a NaN source gives a NaN ([None]: payloads are not modelled).  The reported size is the
+   target's. *)
+Theorem fconv_destination src bits t tc c' ob ret :
+  is_flt src = true -> tgt_cty t = Some tc -> is_flt tc = true ->
+  fconv src bits t true = FOk c' ob ret ->
+  c' = tc /\ ret = cwidth tc /\
+  match fdecode src bits with
+  | FFin neg m e =>
+    let y := rne_to tc (dyR neg m e) in
+    (Rabs y <= fmaxR tc)%R /\
+    exists b m2 e2, ob = Some b /\ fdecode tc b = FFin neg m2 e2 /\ dyR neg m2 e2 = y
+  | FInf sg => exists b, ob = Some b /\ fdecode tc b = FInf sg
+  | FNaN => ob = None
+  end.
+Proof.
+  intros S T F OK.
+  destruct (fconv_target src bits t tc true S T F) as [A _].
+  pose proof (fconv_rounds_or_refuses src bits t tc true S T F) as RR.
+  destruct (fdecode src bits) as [|sg|neg m e] eqn:D; cbn [fround is_inf] in *.
+  - rewrite RR in OK. unfold accepted_as in OK. inversion OK; subst. auto.
+  - rewrite RR in OK. unfold accepted_as in OK. inversion OK; subst.
+    split; [reflexivity|]. split; [reflexivity|]. apply finf_roundtrip, F.
+  - pose proof (fdecode_fin src bits neg m e D) as (M & E).
+    cbv zeta in RR. destruct RR as [GT LE]. cbv zeta.
+    set (y := rne_to tc (dyR neg m e)) in *.
+    destruct (Rle_or_lt (Rabs y) (fmaxR tc)) as [B|B]; [|rewrite (GT B) in OK; discriminate OK].
+    destruct (fround_is_rne tc neg m e ltac:(lia)) as [FR _]. cbv zeta in FR. fold y in FR.
+    destruct (FR B) as (m' & e' & R & M' & V).
+    destruct A as [A|(_ & A & _)]; [|rewrite R in A; discriminate A].
+    rewrite A, R in OK. unfold accepted_as in OK. inversion OK; subst c' ob ret.
+    split; [reflexivity|]. split; [reflexivity|]. split; [exact B|].
+    destruct (fround_fin_range tc neg m e neg m' e' ltac:(lia) R) as (_ & MB & EB & LB).
+    destruct (fdecode_fencode tc neg m' e' F MB EB LB) as (b & m2 & e2 & EN & DE & _ & SD).
+    exists b, m2, e2. split; [exact EN|]. split; [exact DE|].
+    rewrite (same_dyadic_R neg m2 e2 m' e' SD). exact V.
 Qed.
